@@ -146,6 +146,9 @@ CURATED_TEXT = {
 'pred_plus_tail': "token A B C D; start s; s: (D y)+ C; y: ?1 A B | C;",
 'pred_opt_follow': "token A B C D; start s; s: [y] A D; y: ?1 A B | C;",
 'pred_loop_nested': "token A B C D; start s; s: (y D)* C; y: (?1 A | B)* ;",
+'choice_createanon': "token A B C D E G; start s; s: x E; x: (A <1 B [C 1>] D / A E) G;",
+'choice_createanon_loop': "token A B C D E G; start s; s: x E; x: (A <1 B (C 1>)* D / A E) G;",
+'choice_createwhole_elided': "token A B C D E G; start s; s: x E; x^: (A B [C >] D / A E) G;",
 'unused_rule': "token A B; start s; s: A; u: B u | A;",
 'unused_rule_referencing': "token A B C; start s; s: A x; x: B; u: x C;",
 'pred_twice': "token A B C; start s; s: (?1 A | B) (?1 A | C);",
